@@ -27,14 +27,14 @@ import (
 
 // C17Case is one cancellation scenario.
 type C17Case struct {
-	Side      string `json:"side"`      // client | handler | service
-	Op        string `json:"op"`        // client: receive call send up-read up-readbytes up-write ; handler: read readbytes write ; service: idle
-	Transport string `json:"transport"` // unix tcp pipe bridge
-	Trigger   string `json:"trigger"`   // cancel | deadline | none (control arm)
-	Instant   string `json:"instant"`   // before | blocked | partial | after
-	Partial   int    `json:"partial"`   // bytes of the frame delivered before the trigger (instant partial)
-	Follow    int    `json:"follow"`    // number of follow-up frames sent after the operation returned (1-3)
-	FollowCut int    `json:"follow_cut"` // segment size for the follow-up bytes (0 = one write)
+	Side      string `json:"side"`                // client | handler | service
+	Op        string `json:"op"`                  // client: receive call send up-read up-readbytes up-write ; handler: read readbytes write ; service: idle
+	Transport string `json:"transport"`           // unix tcp pipe bridge
+	Trigger   string `json:"trigger"`             // cancel | deadline | none (control arm)
+	Instant   string `json:"instant"`             // before | blocked | partial | after
+	Partial   int    `json:"partial"`             // bytes of the frame delivered before the trigger (instant partial)
+	Follow    int    `json:"follow"`              // number of follow-up frames sent after the operation returned (1-3)
+	FollowCut int    `json:"follow_cut"`          // segment size for the follow-up bytes (0 = one write)
 	Coalesced bool   `json:"coalesced,omitempty"` // instant partial: the prefix arrives in the same segment as the preceding complete frame
 }
 
@@ -541,10 +541,10 @@ func execC17Client(c C17Case, bound time.Duration) (map[string]bool, error) {
 // handler side: the handler's own context-bound raw I/O on Call.Conn
 
 type cancelIface struct {
-	c      C17Case
-	res    chan opResult
-	follow chan opResult
-	nwant  int
+	c        C17Case
+	res      chan opResult
+	follow   chan opResult
+	nwant    int
 	frameLen int // length of the frame that is completely available in the control arms (0 otherwise)
 }
 
